@@ -458,3 +458,71 @@ def load(name):
     db._process_xml_tree(ElementTree.fromstring(DOCS[name]()))
     db.refresh()
     return db
+
+
+# -------------------------------------------------------------------------------------------------
+# write-sequence family: small two-layer databases that differ only in where a layer lives and how things are named.
+# Written one after the other by ONE process; any module-level / cached state of the writer (keyed by short names,
+# ids, ...) then leaks from one database into the next.
+def seq_container(cname, layers):
+    body = ""
+    sds = "".join(x for k, x in layers if k == "sd")
+    bvs = "".join(x for k, x in layers if k == "bv")
+    evs = "".join(x for k, x in layers if k == "ev")
+    if sds:
+        body += f"<ECU-SHARED-DATAS>{sds}</ECU-SHARED-DATAS>"
+    if bvs:
+        body += f"<BASE-VARIANTS>{bvs}</BASE-VARIANTS>"
+    if evs:
+        body += f"<ECU-VARIANTS>{evs}</ECU-VARIANTS>"
+    return doc(cname, body)
+
+
+def seq_lib(name, sid):
+    return ("sd", f'<ECU-SHARED-DATA ID="{name}">{ident(name)}<DIAG-DATA-DICTIONARY-SPEC><DATA-OBJECT-PROPS>{dop(name + ".u8")}'
+                  f'</DATA-OBJECT-PROPS></DIAG-DATA-DICTIONARY-SPEC><DIAG-COMMS>{service(name + ".S", name + ".RQ")}</DIAG-COMMS>'
+                  f'<REQUESTS>{request(name + ".RQ", sid_param(sid) + value_param("p", name + ".u8", 1))}</REQUESTS></ECU-SHARED-DATA>')
+
+
+def seq_bv(name, parent, parent_container, sid, docref=True):
+    dr = f' DOCREF="{parent_container}" DOCTYPE="CONTAINER"' if docref else ""
+    return ("bv", f'<BASE-VARIANT ID="{name}">{ident(name)}<DIAG-DATA-DICTIONARY-SPEC><DATA-OBJECT-PROPS>{dop(name + ".u8")}'
+                  f'</DATA-OBJECT-PROPS></DIAG-DATA-DICTIONARY-SPEC><DIAG-COMMS>{service(name + ".S", name + ".RQ")}</DIAG-COMMS>'
+                  f'<REQUESTS>{request(name + ".RQ", sid_param(sid) + value_param("q", name + ".u8", 1))}</REQUESTS>'
+                  f'<PARENT-REFS><PARENT-REF ID-REF="{parent}"{dr} xsi:type="ECU-SHARED-DATA-REF"/></PARENT-REFS></BASE-VARIANT>')
+
+
+def seq_ev(name, parent, parent_container):
+    return ("ev", f'<ECU-VARIANT ID="{name}">{ident(name)}<PARENT-REFS><PARENT-REF ID-REF="{parent}" DOCREF="{parent_container}" '
+                  f'DOCTYPE="CONTAINER" xsi:type="BASE-VARIANT-REF"/></PARENT-REFS></ECU-VARIANT>')
+
+
+def seq_variants():
+    """name -> list of ODX documents (one database each)"""
+    return {
+        # the reference shape: library layer in container alpha, base + ECU variant in container beta
+        "seqA": [seq_container("alpha", [seq_lib("lib", 16)]), seq_container("beta", [seq_bv("base", "lib", "alpha", 34), seq_ev("ecu", "base", "beta")])],
+        # the parent's container renamed
+        "seqB": [seq_container("gamma", [seq_lib("lib", 16)]), seq_container("beta", [seq_bv("base", "lib", "gamma", 34), seq_ev("ecu", "base", "beta")])],
+        # contents swapped between the two containers
+        "seqC": [seq_container("beta", [seq_lib("lib", 16)]), seq_container("alpha", [seq_bv("base", "lib", "beta", 34), seq_ev("ecu", "base", "alpha")])],
+        # layers renamed, containers as in A
+        "seqD": [seq_container("alpha", [seq_lib("lib2", 17)]), seq_container("beta", [seq_bv("base2", "lib2", "alpha", 35), seq_ev("ecu", "base2", "beta")])],
+        # everything in one container, the base variant's container renamed as well
+        "seqE": [seq_container("delta", [seq_lib("lib", 18), seq_bv("base", "lib", "delta", 36), seq_ev("ecu", "base", "delta")])],
+        # same names as A, other contents (service ids, an extra layer)
+        "seqF": [seq_container("alpha", [seq_lib("lib", 48), seq_lib("lib3", 49)]), seq_container("beta", [seq_bv("base", "lib3", "alpha", 50), seq_ev("ecu", "base", "beta")])],
+    }
+
+
+def load_docs(xmls, aux=None):
+    import io
+    from xml.etree import ElementTree
+    from odxtools.database import Database
+    db = Database()
+    for fn, data in (aux or {}).items():
+        db.add_auxiliary_file(fn, io.BytesIO(data))
+    for x in xmls:
+        db._process_xml_tree(ElementTree.fromstring(x))
+    db.refresh()
+    return db
